@@ -103,6 +103,14 @@ def check_chain_list(case, rec):
         rec.skip('all coefficients zero: outside the domain')
         return
     want = chains_poly(chain_tuples(case), L, OID_ID, conv)
+    # "identity-padded chain": `padded` returns a chain of full length starting at site 0 with the same operators, charges and coefficient
+    for ch, cd in list(zip(chains, case['chains']))[:3]:
+        p = ch.padded(L, OID_ID)
+        npr = L - cd['istart'] - len(cd['oids'])
+        require(p.istart == 0 and p.length == L and list(p.oids) == [OID_ID] * cd['istart'] + list(ch.oids) + [OID_ID] * npr
+                and list(p.qnums) == [0] * cd['istart'] + list(ch.qnums) + [0] * npr and p.coeff == ch.coeff,
+                'OpChain.padded does not return the identity-padded chain', istart=p.istart, oids=list(p.oids), qnums=list(p.qnums))
+        require(ch.istart == cd['istart'] and ch.length == len(cd['oids']), 'OpChain.padded modified the chain')
     graph = ptn.OpGraph.from_opchains(chains, L, OID_ID)
     require(graph.is_consistent(), 'graph fails its own consistency check')
     require(graph.length == L, 'graph has the wrong length', got=graph.length, want=L)
